@@ -43,6 +43,9 @@ func c02Compare(a, b *Outcome) (clause, key string) {
 	if !a.OK {
 		return "", ""
 	}
+	if (a.Model != nil || b.Model != nil) && !reflect.DeepEqual(a.Model, b.Model) {
+		return "model-differs", FirstDiff(a.Model, b.Model)
+	}
 	if !reflect.DeepEqual(a.Project, b.Project) {
 		return "project-differs", FirstDiff(a.Project, b.Project)
 	}
@@ -87,6 +90,10 @@ func c02Layout(r *zsimrt.Run) *Layout {
 	if r.Chance("c02-remote", 1, 3) {
 		addRemote(&G{R: r, feat: map[string]bool{}, L: L}, L)
 	}
+	if r.Chance("c02-model", 1, 8) {
+		L.Entry = "model" // LoadModelWithContext: the raw model is what is compared
+		return L
+	}
 	if r.Chance("c02-cli", 1, 5) {
 		// through cli.ProjectOptions: .env discovery, OS environment, COMPOSE_FILE, default file lookup
 		L.Entry = "cli"
@@ -96,6 +103,9 @@ func c02Layout(r *zsimrt.Run) *Layout {
 }
 
 func soloDigest(o *Outcome) string {
+	if o.Model != nil {
+		return fmt.Sprintf("%s model %x", o.Kind(), fnvHash([]byte(Fingerprint(o.Model))))
+	}
 	return fmt.Sprintf("%s %x %x", o.Kind(), fnvHash(o.YAML), fnvHash(o.JSON))
 }
 
